@@ -669,7 +669,14 @@ func legAPI() {
 		body, _ := json.Marshal(map[string]string{"address": s})
 		key, why := refAddrDecode(s)
 		c.evals++
-		resp, err := client.Post(url, "application/json", bytes.NewReader(body))
+		var resp *http.Response
+		var err error
+		for try := 0; try < 4; try++ {
+			if resp, err = client.Post(url, "application/json", bytes.NewReader(body)); err == nil {
+				break
+			}
+			time.Sleep(200 * time.Millisecond)
+		}
 		if err != nil {
 			r.Inconclusive("api post: " + err.Error())
 			return
